@@ -305,7 +305,7 @@ func checkCmd(opts *RunOpts, args []string) int {
 	witnessCache := map[string]bool{}
 	var unsatCore []string
 	cexCache := map[string]*Cex{}
-	var cov_order, cov_rel, cov_neg map[string]any
+	var cov_order, cov_rel, cov_neg, cov_q map[string]any
 
 	for _, res := range run.Results {
 		if res.Trusted {
@@ -496,6 +496,15 @@ func checkCmd(opts *RunOpts, args []string) int {
 		}
 		cov_neg = cv
 	}
+	if run.QRan {
+		_, vl, cv := boundedListVerdict(opts, prop, known, "bounded.queue.drain", "none.txt", run.QFailing, run.QTotal,
+			"states A,B,C (CEnter vetoes or not), Add A whose final handler issues every script of up to 2 Add/Remove mutations",
+			"", "break the queue discipline (nested mutations are queued, run in queue-tick order, none lost, WhenQueue released for accepted and canceled ones)", nil)
+		if vl != "" {
+			violations = append(violations, vl)
+		}
+		cov_q = cv
+	}
 	if run.RelRan {
 		kl, vl, cv := boundedListVerdict(opts, prop, known, "bounded.resolver.relations", "c02_bounded_known.txt", run.RelFailing, run.RelTotal,
 			fmt.Sprintf("4-state schemas with at most %d relations (Add/Remove/Require, one target each), start sets {} and {X}, single-state Add/Remove/Set", run.RelBound),
@@ -554,6 +563,9 @@ func checkCmd(opts *RunOpts, args []string) int {
 	}
 	if cov_rel != nil {
 		cov["bounded_relations_standin"] = cov_rel
+	}
+	if cov_q != nil {
+		cov["bounded_queue_standin"] = cov_q
 	}
 	if cov_neg != nil {
 		cov["bounded_negotiation_standin"] = cov_neg
